@@ -134,9 +134,19 @@ class Gen:
             self.emit('OP %d appcmd %d despawn %d' % (p, r.randint(0, 2), h))
             self.alive.discard(h)
         elif k == 'parent' and len(self.alive) >= 2:
+            links = getattr(self, 'links', None)
+            if links is None:
+                links = self.links = {}
+            if links and r.random() < 0.25:
+                # an existing link is asserted again (add_child to the same parent), by any peer
+                c = r.choice(sorted(x for x in links if x in self.alive and links[x] in self.alive) or [None])
+                if c is not None:
+                    self.emit('OP %d parent %d %d' % (r.choice([p, self.owner[c]]), c, links[c]))
+                    return
             c, par = r.sample(sorted(self.alive), 2)
             q = self.owner[c] if r.random() < 0.5 else p
             self.emit('OP %d parent %d %d' % (q, c, par))
+            links[c] = par
 
     def generate(self, nops=20, late_join=None, pre_marks=None):
         r = self.r
@@ -553,6 +563,20 @@ def parents_clean(seed, nops=12):
         return out
     last = {}
     for _ in range(nops):
+        if parent and r.random() < 0.15:
+            # an existing link is asserted again by the peer that made it (add_child to the same parent:
+            # Changed<Parent> fires, the others receive a link they already have), or, after a drain, by
+            # any other peer: one announcement, then silence
+            c = r.choice(sorted(parent))
+            p = last[c]
+            if r.random() < 0.5:
+                lines.append('DRAIN 60')
+                p = r.choice(peers)
+                last[c] = p
+            lines.append('OP %d parent %d %d' % (p, c, parent[c]))
+            if r.random() < 0.7:
+                _pace(r, lines, peers)
+            continue
         c = r.randint(1, k)
         cands = [q for q in range(1, k + 1) if q != c and c not in ancestors(q) and q != parent.get(c)]
         if not cands:
@@ -697,6 +721,13 @@ def optin(seed, nops=16):
                 excluded_later.append((str(hh), t))
                 val += 1
                 lines.append('OP %d write %d %d %d' % (owner, hh, t, val))
+                if r.random() < 0.6:
+                    # the marker is taken off and put back between two frames (a tool re-applying its
+                    # configuration): the entity is excluded whenever a system looks at it
+                    lines.append('FRAME %d %d' % (owner, r.randint(1, 2)))
+                    lines.append('OP %d excl %d %d 0' % (owner, hh, t))
+                    lines.append('OP %d excl %d %d 1' % (owner, hh, t))
+                    lines.append('FRAME %d 2' % owner)
         elif c < 0.8:
             val += 1
             kk = r.choice([0, 1, 2, 3])
@@ -903,15 +934,61 @@ def asset_burst(seed):
     return '\n'.join(lines) + '\n', dict(enabled={p: (1, 1, 1) for p in range(n)})
 
 
+def companions_present(seed):
+    """C17 "leaves already present companions untouched": a replica carries a GlobalTransform of the
+    application's own (written locally on the receiving peer, not synchronized) BEFORE the Transform
+    arrives from the network, and further Transform writes follow 0..3 frames apart, from the host and
+    from a client (relayed): the application's GlobalTransform must stay what it was."""
+    r = random.Random(seed)
+    n = r.choice([2, 3, 3])
+    lines = _header(r, n, [2])
+    for p in range(n):
+        lines.append('OP %d setup' % p)
+    lines.append('ROUND %d' % r.randint(6, 9))
+    peers = list(range(n))
+    val = 10
+    own = {}
+    for h in range(1, r.randint(2, 4) + 1):
+        w = r.choice(peers)
+        lines.append('OP %d spawn %d 1' % (w, h))
+        lines.append('DRAIN 40')
+        keep = [q for q in peers if q != w and r.random() < 0.7] or [r.choice([q for q in peers if q != w])]
+        for q in keep:
+            val += 1
+            lines.append('OP %d write %d 100 %d' % (q, h, 500 + val))     # the application's own GlobalTransform
+            own[(q, h)] = 500 + val
+        lines.append('ROUND 2')
+        for _ in range(r.randint(1, 4)):
+            val += 1
+            lines.append('OP %d write %d 2 %d' % (w, h, val))
+            lines.append('ROUND %d' % r.randint(0, 3) if r.random() < 0.8 else 'FRAME %d 1' % w)
+        lines.append('DRAIN 40')
+    lines.append('DRAIN 60')
+    return '\n'.join(lines) + '\n', dict(own={'%d:%d' % k: v for k, v in own.items()})
+
+
 def session(seed):
     """C15: start-hosting / connect / disconnect sequences at every handshake phase."""
     r = random.Random(seed)
     n = r.choice([2, 2, 3])
-    lines = _header(r, n, [0])
+    big = r.random() < 0.35
+    lines = _header(r, n, [0, 7] if big else [0])
     lines.append('OP 0 setup')
+    if r.random() < 0.25:
+        # hosting that ends at once: the transport is removed 1..3 frames after it was inserted (before,
+        # at, or right after the frame in which ServerState becomes Connected); the published state must
+        # be back to Disconnected within two frames
+        lines.append('FRAME 0 %d' % r.randint(1, 3))
+        lines.append('OP 0 removetransports')
+        lines.append('FRAME 0 6')
+        return '\n'.join(lines) + '\n', dict(removed=[0])
     lines.append('FRAME 0 %d' % r.randint(1, 4))
     for h in range(1, r.randint(1, 4)):
         lines.append('OP 0 spawn %d 1 0:%d' % (h, h))
+    if big:
+        # a snapshot of several hundred kB: it reaches a joiner over several frames, FinishedInitialSync last
+        for h in range(10, 10 + r.randint(2, 4)):
+            lines.append('OP 0 spawn %d 1 0:%d 7:%d' % (h, h, 100000 + h))
     lines.append('FRAME 0 3')
     removed = []
     for p in range(1, n):
